@@ -4,7 +4,7 @@ from .. import common
 from . import _containers as K
 
 PROP_FILE = "Properties/C09.v"
-TRUSTED = ["segment-level models of .c2pa/PNG/JPEG/GIF/RIFF handlers (coq/Model/Cont*.v); byte-level decoders tied by the correspondence run",
+TRUSTED = ["segment-level models of .c2pa/PNG/JPEG/GIF/RIFF handlers (coq/Model/Cont*.v); dec(enc) proved for PNG and JPEG, GIF/RIFF byte decoders tied by the correspondence run",
            "independent media extractors in vlib/props/_containers.py (PNG chunk list, JPEG segment list per T.81, GIF block list, "
            "RIFF child list + following RIFF chunks, BMFF: top-level boxes and the bytes addressed through stco/co64/iloc)",
            "BMFF is covered by the oracle on generated layouts and fixtures only (no Coq model): partial; TIFF, SVG, MP3, FLAC, JPEG XL: "
@@ -47,6 +47,12 @@ def gen_cases(ctx):
         a = K.build_jpeg(variant=name)
         for ops in sets[:2] + sets[4:6]:
             cases.append({"fmt": "jpg", "name": name, "asset": {"hex": a.hex()}, "ops": json.loads(json.dumps(ops)), "grp": "special"})
+    # manifests spanning several JPEG APP11 segments / GIF sub-blocks, then replaced by a small one or removed
+    M = ctx.facts["MAX_JPEG_MARKER_SIZE"] if getattr(ctx, "facts", None) else 64000
+    for fmt, a in (("jpg", K.build_jpeg(variant="xmp")), ("gif", K.build_gif(variant="ext")), ("png", K.build_png(variant="rich"))):
+        for ops in ([{"op": "w", "s": {"gen": [M + 6000, 1]}}, {"op": "w", "s": {"gen": [60, 2]}}],
+                    [{"op": "w", "s": {"gen": [M + 6000, 1]}}, {"op": "rm"}]):
+            cases.append({"fmt": fmt, "name": "multi", "asset": {"hex": a.hex()}, "ops": ops, "grp": "boundary"})
     for fmt in ("avi", "video/avi", "video/msvideo", "video/x-msvideo", "application/x-troff-msvideo"):
         a = K.build_riff(variant="avi_avix")
         for ops in (sets[0], sets[4]):
@@ -179,7 +185,7 @@ def run(ctx):
                 "before/after the media data) + fixtures of every writable format; non-trivial = at least one operation; distinct by (format, asset, operations)",
         "distribution": stats,
         "model_compared": nmodel,
-        "level_by_format": {"png": "full", "jpeg": "full (segment level)", "gif": "full (segment level; GIF87a header upgrade is F-GIF-87A)",
+        "level_by_format": {"png": "full", "jpeg": "full (bytes)", "gif": "full (segment level; GIF87a header upgrade is F-GIF-87A)",
                             "riff": "full for the first RIFF chunk (segment level); extra chunks F-RIFF-AVIX",
                             "bmff": "partial: oracle only (F-BMFF)", "tiff": "partial: remove(write)=remove only", "svg": "partial: remove(write)=remove only",
                             "mp3": "partial: remove(write)=remove only", "flac": "partial: remove(write)=remove only", "jxl": "partial: remove(write)=remove only"},
